@@ -20,7 +20,7 @@ func init() {
 	core.Register(&core.Simple{
 		Id: "C09", Lvl: "exploration", Quick: 480, Thorough: 16000, PerBatch: 160, Width: 160, Timeout: 2400,
 		RuleText: "each case uploads one generated file (sizes 0..200 KiB, thorough up to 8 MiB; ASCII and Mac-Roman names; with/without resource fork; preserve-forks on/off) through a chain of 0-4 connection cuts (EOF or read error) followed by resume attempts until completion; cut offsets sweep every byte of the preamble+flattened header region across the cases of a run (case index modulo region length) and sample the data and resource-fork regions and hit every structural boundary (end of preamble, FILP header, INFO header, info fork, DATA header, data, resource-fork header) exactly and at +-1; after every cut the final name must be absent and the partial file equal to the data prefix delivered, the resume offset in field 203 must equal the partial's size, the completed file must equal the original and a later download must return it. Other modes: upload onto an existing name (refused, untouched), a stale reference number after the name was taken, and a cut inside the resume branch of a folder upload. distinct = (mode, first cut region, number of cuts, size class, preserve flag); non-trivial = at least one cut or a refusal mode",
-		Case: runCase,
+		Case:     runCase,
 	})
 }
 
